@@ -8,7 +8,7 @@ FXR = dict(effects=0.3, enqueue=0.2, restart=0.1)
 PLAINR = dict(restart=0.15)
 
 LEDGER_PROFILES = {
-    'C03': [(['m01', 'm02', 'm03', 'm04', 'm05', 'm06', 'm07', 'm08', 'm10', 'm11', 'm12', 'm13'], FXR, 60, 600),
+    'C03': [(['m01', 'm02', 'm03', 'm04', 'm05', 'm06', 'm07', 'm08', 'm10', 'm11', 'm12', 'm13', 'm17'], FXR, 60, 600),
             (['m01', 'm03', 'm04', 'm05', 'm10'], PLAINR, 80, 800)],
     'C17': [(['m08', 'm10'], FXR, 250, 2500),
             (['m08', 'm10'], dict(reads=True, effects=0.2), 150, 1500)],
@@ -55,10 +55,13 @@ def run_ledger_check(prop, tier, seed):
     ev.rule = LRULES[prop]
     ev.assumptions = ['exception-free scripts only (runs with an injected throw are skipped by this monitor)',
                       'the ledger is rebuilt from observed on_entry / on_exit records only; expected state ids follow the documented numbering computed from the machine definition',
-                      'machine definitions are sampled (curated corpus)']
+                      'machine definitions are sampled (curated corpus + seeded generated machines)']
     known = engine.load_known()
     hs = {}
-    for machines, kw, nq, nt in LEDGER_PROFILES[prop]:
+    profiles = list(LEDGER_PROFILES[prop])
+    if prop == 'C03':
+        profiles.append((checks.gen_machines(tier, seed), FXR, 60, 400))
+    for machines, kw, nq, nt in profiles:
         for m in machines:
             if m not in hs:
                 hs[m] = engine.Harness(m)
@@ -70,7 +73,7 @@ def run_ledger_check(prop, tier, seed):
     snaps = 0
     skipped = 0
     idmap_checked = 0
-    for machines, kw, nq, nt in LEDGER_PROFILES[prop]:
+    for machines, kw, nq, nt in profiles:
         n = nq if tier == 'quick' else nt
         for m in machines:
             h = hs[m]
